@@ -16,6 +16,7 @@ from .. import refmodel as R
 from .. import shapes as S
 
 PROPERTY = "C15"
+VIA_HISTORY_EVERY = 9      # every k-th shape case is also run on an object that reached its definition through edits
 EXPLORERS = ['E1']
 RULE = ("E1: 3-D surfaces (rational and not, pairwise different net sizes, unit and non-unit parametric domains) x sample "
         "sizes (nu,nv) x every vertex spacing dividing nu-1 and nv-1 x {TriangularTessellate via Surface.tessellate, "
@@ -178,6 +179,10 @@ def gen_cases(tier, seed):
                                             trim=([trim_a, trim_b, trim_a][k] if tess == 'trim' else None)) for k in range(n)]
                             cases.append(dict(kind='container', members=members, n=[nu, nv], spacing=s, tess=tess, pretess=pretess,
                                               update_delta=ud, formats=EXPORT_FORMATS))
+                            if n >= 2 and pretess and ud and s == 1:
+                                # the same, with the tessellation component assigned through the container
+                                cases.append(dict(kind='container', members=members, n=[nu, nv], spacing=s, tess=tess, pretess=True,
+                                                  update_delta=ud, formats=EXPORT_FORMATS[:1], tess_via_container=True))
     return cases
 
 
@@ -844,6 +849,8 @@ def _make_container(case, seed):
     cont = multi.SurfaceContainer()
     for sf in surfs:
         cont.add(sf)
+    if case.get('tess_via_container'):
+        cont.tessellator = type(surfs[0].tessellator)()
     cont.sample_size_u = nu
     cont.sample_size_v = nv
     return cont, surfs
